@@ -143,6 +143,10 @@ def correspondence(rep, rng, tier):
         if n not in D.all_handler_names():
             continue
         base = D.make_case(rng, n)
+        from .C09 import find_base
+        good = find_base(n, base['lookups'], base['end'])       # START words this host decodes (a valid family, kind, signal …)
+        if good is not None:
+            base = dict(base, start=list(good))
         for pos in range(4):
             for small in (1, 2, 3, 5):
                 for b in range(8, 32):
